@@ -418,6 +418,7 @@ type c16Scn struct {
 //	Cb2U                      like CbU on a Float64ObservableCounter of meter "y", two Unregister calls
 //	Span                      Tracer("t").Start(ctx,"s").End()
 //	SelfT / SelfM / SelfP     SetXxx(Xxx()): setting the global default to itself, a reported no-op
+//	CbY / Collect             a callback with a scheduling point inside / one collection of the fake SDK (a reader)
 func c16Body(sc c16Scn, res *string) func(x *sched.Exec) {
 	return func(x *sched.Exec) {
 		c16Reset()
@@ -498,6 +499,22 @@ func c16Body(sc c16Scn, res *string) func(x *sched.Exec) {
 							_ = reg.Unregister()
 						}
 						o.cbs = append(o.cbs, cb{"g", op == "CbU", runs})
+					case "CbY": // a callback that takes time between being called and observing
+						m := MeterProvider().Meter("x")
+						g, _ := m.Int64ObservableGauge("g")
+						runs := &atomic.Int32{}
+						_, _ = m.RegisterCallback(func(_ context.Context, ob metric.Observer) error {
+							runs.Add(1)
+							sched.Yield("callback running", runs)
+							ob.ObserveInt64(g, 7)
+							return nil
+						}, g)
+						o.cbs = append(o.cbs, cb{"g", false, runs})
+					case "Collect": // a reader of the SDK collects: its observer receives what ITS run of the callbacks observed
+						runs, seen := sdk.collect()
+						if len(seen) != runs {
+							x.Fail("C16|observation-delivered-to-another-collection", "a collection ran %d callback(s), each observing once; its observer received %d observation(s) (another collection was running the same callback)", runs, len(seen))
+						}
 					case "Cb2U":
 						m := MeterProvider().Meter("y")
 						g, _ := m.Float64ObservableCounter("oc")
@@ -717,6 +734,7 @@ func c16Jobs(thorough, race bool) []c16Job {
 		{"G8-propagator", [][]string{{"InstallP"}, {"Inject", "Inject"}}},
 		{"G9-self-set-then-install", [][]string{{"Span", "Ctr", "Inject", "SelfT", "SelfM", "SelfP", "InstallT", "InstallM", "InstallP"}, {"Span", "Ctr", "Inject"}}},
 		{"G10-self-set-racing-install", [][]string{{"SelfT", "SelfM"}, {"InstallT", "InstallM"}, {"Span", "Ctr"}}},
+		{"G12-two-readers-collect", [][]string{{"CbY", "InstallM", "Collect"}, {"Collect"}}},
 		{"G11-sdk-refuses-instruments", [][]string{{"BadSync", "Ctr", "BadAsync", "InstallM"}, {"BadSync", "Ctr"}, {"BadAsync", "Cb"}}},
 	}
 	p := 3
